@@ -806,6 +806,11 @@ def c08(ctx):
         for k1, k2 in ((760, 8), (8, 760), (0, 2046), (2046, 16), (760, 744)):
             hs.append("i;r%d;k%d;s;" % (mode, k1) + ";".join("e" + a for a in hadd) + ";k%d;s;" % k2 + ";".join("e" + a for a in hadd) + ";t0;s;e%s;t1;s;e%s;f" % (hadd[0], hadd[0]))
     check_histories(ctx, "policy-reconfigured", hs)
+    # addresses on listed TLDs in several letter cases: expected class from the table
+    lc_addrs = [b"a@mail.RU", b"A@IANA.ORG", b"a@x.Museum", b"a@x.BIZ", b"a@b.com", b"a@b.ru", b"a@nic.aero", b"a@x.arpa", b"a@x.biz", b"a@x.edu", b"a@x.Info", b"a@x.COM"]
+    lcs = ctx.spec(["sT %s" % hx(x.rsplit(b".", 1)[-1]) for x in lc_addrs])
+    listed_cls = {hx(x): sl.split(" ")[1] for x, sl in zip(lc_addrs, lcs) if sl.split(" ")[1] not in ("-26",)}
+    addrs = list(dict.fromkeys(addrs + lc_addrs))
     masks = range(0, 2048, 1 if ctx.tier != "quick" else 37)
     for m in MODES:
         res = {}
@@ -820,6 +825,8 @@ def c08(ctx):
                 k = int(k)
                 if t == 1 and 1 <= rc <= 9 and (f[1] == "1") != bool(k & (1 << (rc + 1))):
                     ctx.S("address accepted/refused against its class bit", op=op, impl=cl)
+                if t == 1 and a in listed_cls and rc != -2 and str(rc) != listed_cls[a]:
+                    ctx.S("a listed TLD (any letter case) is not given its class, so its bit cannot govern it", op=op, impl=cl, table_class=listed_cls[a])
                 if t == 1 and bytes.fromhex(a) in resv_addrs and rc != 8:
                     ctx.S("a reserved domain is not of class 'special' (its own bit, and no other, must govern it)", op=op, impl=cl)
                 if t == 1 and bytes.fromhex(a) in unl_addrs and f[2] != "2" and (f[1] != "0" or f[2] != "26"):
@@ -1679,6 +1686,19 @@ def c10(ctx):
             if ru[1:4] != ra[1:4]:
                 ctx.S("mode 6531 treats the U-label and A-label spellings of a domain differently (right after a call with the other tld_check setting)",
                       op=iops[3 * k + 1], history=iops[3 * k: 3 * k + 3], ulabel=ci[3 * k + 1], alabel=ci[3 * k + 2])
+        # labels valid only thanks to CONTEXTJ: the A-label spelling is computed here (RFC 3492 on the NFC lower-case label) and libidn2 is the
+        # judge of its validity; when it is accepted, the U-label spelling must be treated the same
+        cj = ["क्\u200dष.com", "नमस्\u200cते.भारत", "می\u200cخواهم.com"]
+        cja = [".".join(("xn--" + l.encode("punycode").decode()) if any(ord(ch) > 127 for ch in l) else l for l in d.split(".")) for d in cj]
+        cops = []
+        for u_, a_ in zip(cj, cja):
+            cops += ["E 6531 %d %s" % (t, hx(b"a@" + u_.encode())), "E 6531 %d %s" % (t, hx(b"a@" + a_.encode()))]
+        cc_, _ = ctx.run("contextj", "default", cops)
+        ctx.evals += len(cops)
+        for k in range(0, len(cops), 2):
+            fu, fa = fields(cc_[k]), fields(cc_[k + 1])
+            if int(fa[1]) >= 0 and fu[1:4] != fa[1:4]:
+                ctx.S("mode 6531 treats the U-label and A-label spellings of a domain differently (a label that is valid by the CONTEXTJ rules)", op=cops[k], ulabel=cc_[k], alabel=cc_[k + 1])
         # all-ASCII domains: 6531 accepts only what the ASCII modes accept, same class; otherwise an IDN error
         ascd = [d for d in dict.fromkeys(gen.domain_strings("quick", ctx.rng)[:: (20 if ctx.tier == "quick" else 2)]) if 0 not in d and all(x < 128 for x in d) and b"@" not in d and not d.startswith(b"[")]
         tbl = table_names(ctx)
@@ -1815,9 +1835,9 @@ def c14(ctx):
             ctx.samples.append(dict(threads=nth, rounds=rounds, output=out.strip(), address=repr(ctx.rng.choice(addrs))))
         err = p.stderr.decode(errors="replace")
         if "ThreadSanitizer: data race" in err or p.returncode == 66:
-            loc = re.findall(r"#0 (\S+) (\S+)", err)[:4]
+            frames_ = re.findall(r"#0 (\S+) (\S+)", err)[:4]
             ctx.S("unsynchronised access to shared mutable memory (ThreadSanitizer data race)", op="mt[%s%s] %d threads x %d rounds over %d addresses" % (v[2:], ("," + loc["VERIF_LOCALE"]) if loc else "", nth, rounds, len(addrs)),
-                  report=err[:1500], frames=loc)
+                  report=err[:1500], frames=frames_)
         elif m and int(m.group(2)) != 0:
             ctx.S("a thread obtained an outcome different from the sequential run", op="mt %d threads x %d rounds" % (nth, rounds), output=out)
         elif p.returncode != 0:
